@@ -2663,23 +2663,29 @@ def lgdt(info, a):
     return e
 
 def bittest_get(a, b):
-    if not isinstance(a, ExprMem):
-        # register (ExprId, or the slice of one under 16-bit operand size)
+    if not isinstance(a, ExprMem) or isinstance(b, ExprInt):
+        # register operand (ExprId, or the slice of one under 16-bit operand
+        # size), or immediate bit offset: the offset is taken modulo the
+        # operand size and selects a bit of the operand itself
         off_bit = ExprOp('&', b, ExprInt_from(a, a.get_size() - 1))
         d = a
-        #d = ExprOp('>>', a, off_bit)
     else:
+        # memory operand, bit offset in a register: a signed offset that
+        # also selects the (d)word, before or after the operand's address
         off_bit = ExprOp('&', b, ExprInt_from(a, a.get_size() - 1))
         off_byte = ExprOp("&",
-                          ExprOp('>>', b, ExprInt_from(a, 3)),
+                          ExprOp('a>>', b, ExprInt_from(a, 3)),
                           ExprOp('!', ExprInt_from(a, a.get_size()//8 -1)))
         if off_byte.get_size() < a.arg.get_size():
-            # 16-bit operand size: the byte offset in the width of the address
+            # 16-bit operand size: the byte offset sign-extended to the
+            # width of the address
             off_byte = ExprCompose([(off_byte, 0, off_byte.get_size()),
-                (ExprInt_from(off_byte, 0), off_byte.get_size(), a.arg.get_size())])
+                (ExprCond(get_op_msb(off_byte),
+                          ExprInt_from(off_byte, -1),
+                          ExprInt_from(off_byte, 0)),
+                 off_byte.get_size(), a.arg.get_size())])
 
         d = ExprMem(a.arg+off_byte, a.size)
-        #d = ExprOp('>>', mem, off_bit)
     return d, off_bit
 
 def bt(info, a, b):
